@@ -284,6 +284,7 @@ def removeTag (data : Bytes) : Bytes :=
 def dispatch (op : String) (args : List String) : Option String :=
   match op with
   | "msg.produce" => some (opProduce args)
+  | "msg.produce2" => some (opProduce args)   -- history freedom: a message object used before answers like a fresh one
   | "msg.consume" => some (opConsume args)
   | "msg.reencode" => some (opReencode args)
   -- a history of library-chosen nonces: consecutive whole blocks of the random stream (`fresh_draws_are_consecutive_blocks`),
